@@ -1180,7 +1180,7 @@ def main(chk: Check, replay: dict | None = None) -> int:
     mode_cases = [run_mode_case(i) for i in mode_inputs]
     codes = chk.coq_eval(imports, "(gen_input * registry * bool) * (bool * list path)", [c_mode_case(c) for c in mode_cases],
                          "run_modes", tag="modes") if chk.model_ok else None
-    chk.decide(mode_cases, codes, {1: "F09h"},
+    chk.decide(mode_cases, codes, {},
                "modes: Diff.tree_force/tree_temp/rerun_differing = (rerun outcome, files reported by the real non-force run)")
     dist["modes"] = {"cases": len(mode_cases), "rerun_failed": sum(1 for c in mode_cases if not c["obs"]["rerun_ok"]),
                      "core_given": sum(1 for c in mode_cases if c["abs"]["core_given"]),
